@@ -238,6 +238,7 @@ class EnvSession:
         if kind == "reset":
             fold = op[1] if len(op) > 1 and op[1] else "training-set"
             start = op[2] if len(op) > 2 else 0
+            ep_override = op[3] if len(op) > 3 else None   # reset(fold, episode_length=m): m states
             lo, hi = self.fold_bounds(fold)
             self.sink.clear()
             self.seen = 0
@@ -254,7 +255,12 @@ class EnvSession:
             np.random.choice = fake_choice
             try:
                 try:
-                    self.env.reset(fold) if fold != "training-set" or self.case.get("folds") else self.env.reset()
+                    if ep_override is not None:
+                        self.env.reset(fold, episode_length=ep_override)
+                    elif fold != "training-set" or self.case.get("folds"):
+                        self.env.reset(fold)
+                    else:
+                        self.env.reset()
                     st = f"ok {'true' if self.env._done else 'false'} {ot(self.env.now())}"
                 except EndOfEpisodeError:
                     st = "err eoe"
@@ -264,7 +270,7 @@ class EnvSession:
             finally:
                 np.random.choice = orig
             eff_start = min(start, captured["n"] - 1) if captured.get("n") else 0
-            r.op(f"ereset {lo} {hi} {eff_start}", st)
+            r.op(f"ereset {lo} {hi} {eff_start}" + (f" {ep_override}" if ep_override is not None else ""), st)
             o.update(status=st, sampler=captured, start=eff_start, lo=lo, hi=hi)
             if not st.startswith("ok"):
                 # the implementation is left half-reset; nothing further is meaningful on this environment
